@@ -331,6 +331,40 @@ func checkC20(c *Check) {
 		}
 	}
 	poolInsertIsFinal(c, "C20.R4")
+	// the watcher re-reads the path that was configured: the file reader keeps its constructor argument as given (a
+	// path resolved once — EvalSymlinks, Abs — keeps pointing at the old target after a symlink-swap rotation, which
+	// is how Kubernetes updates mounted secrets)
+	if nfr := P.Func(pkgInt, "NewFileReader"); c.Anchor("C20.R5", "NewFileReader", nfr != nil) {
+		var pathParam *ssa.Parameter
+		for _, p := range nfr.Params {
+			if isString(p.Type()) {
+				pathParam = p
+			}
+		}
+		nPath := 0
+		for _, b := range nfr.Blocks {
+			for _, ins := range b.Instrs {
+				st, ok := ins.(*ssa.Store)
+				if !ok {
+					continue
+				}
+				fa, isF := st.Addr.(*ssa.FieldAddr)
+				if !isF || !isString(st.Val.Type()) || !strings.HasSuffix(typeID(fa.X.Type()), ".FileReader") {
+					continue
+				}
+				nPath++
+				same := true
+				for _, l := range Leaves(st.Val, leafOpts{noConcat: true}) {
+					if resolveCell(stripConv(l)) != ssa.Value(pathParam) {
+						same = false
+					}
+				}
+				c.Obl(same && pathParam != nil, "C20.R5", "reader-keeps-configured-path", P.Pos(st.Pos()), "the reader stores the path it was given",
+					"the file reader stores a path derived from (not equal to) the configured one: a rotation that re-targets the configured path (symlink swap) is never seen")
+			}
+		}
+		c.Obl(nPath >= 1, "C20.R5", "reader-path-field", P.Pos(nfr.Pos()), "the reader's path field is set by the constructor", "the file reader's path field is not set in NewFileReader (anchor lost)")
+	}
 	c.Obl(okID, "C20.R4", "id-is-hash-of-settings", P.Pos(load.Pos()), "pool id = encodeConfig(settings).hash()", "the pool id is not the hash of the encoded settings of the requested configuration")
 
 	// ---- R5
